@@ -10,6 +10,11 @@ uint64_t nv_gcount;                     /* ghost: evaluations that also computed
 #define NV_GCOUNT nv_gcount
 #define NV_DONE_EXTRA_REQUIRES (nv_gcount <= nv_ver_counter)
 #include "../solver/solver.h"
+/* optional third ghost counter fcalls() + gcalls() kept by every stub that models evaluations (specs/C02/penalty.h defines it: sums of two
+ * 64-bit counters inside loop invariants are out of the SAT back end's reach, a counter of its own is not) */
+#ifndef NV_FG_BUMP
+#define NV_FG_BUMP(k)
+#endif
 /* same predicate as NV_FINITE (nv_base.h), through CBMC's classification builtin instead of a floating-point subtraction */
 #define NV_ISFIN(x) (__CPROVER_isfinited(x))
 
@@ -40,14 +45,14 @@ static _Bool nv_vec_all_finite(const struct nv_vec* v) { return v->fin; }
  * fcalls() counts every evaluation, gcalls() those with a gradient buffer (src/function.cpp) */
 static double nv_fn_vgrad2(const struct nv_function* f, const struct nv_vec* x, struct nv_vec* g)
 {
-  nv_ver_counter = nv_ver_counter + 1; nv_gcount = nv_gcount + 1;
+  nv_ver_counter = nv_ver_counter + 1; nv_gcount = nv_gcount + 1; NV_FG_BUMP(2);
   g->id = nv_nondet_uint64_t(); __CPROVER_assume(g->id != 0);
   g->fval = nv_nondet_double(); g->fin = nv_nondet__Bool(); __CPROVER_assume(g->fin || !NV_ISFIN(g->fval));
   g->grad_of = x->id;
   return x->fval;
 }
 static double nv_fn_vgrad1(const struct nv_function* f, const struct nv_vec* x)
-{ nv_ver_counter = nv_ver_counter + 1; return x->fval; }
+{ nv_ver_counter = nv_ver_counter + 1; NV_FG_BUMP(1); return x->fval; }
 static int64_t nv_fn_fcalls(const struct nv_function* f) { return (int64_t)nv_ver_counter; }
 static int64_t nv_fn_gcalls(const struct nv_function* f) { return (int64_t)nv_gcount; }
 
@@ -56,7 +61,7 @@ static int64_t nv_fn_gcalls(const struct nv_function* f) { return (int64_t)nv_gc
 static struct nv_state nv_bstate_make(const struct nv_function* f, const struct nv_vec* x0)
 {
   struct nv_state s;
-  nv_ver_counter = nv_ver_counter + 1; nv_gcount = nv_gcount + 1;
+  nv_ver_counter = nv_ver_counter + 1; nv_gcount = nv_gcount + 1; NV_FG_BUMP(2);
   s.m_function = (const void*)f;
   s.ver = x0->id; s.eval_ver = s.ver; s.fx_ver = s.ver; s.origin = 0; s.t = 0.0; s.xfin = x0->fin; s.m_fx = x0->fval;
   s.valid = nv_nondet__Bool(); __CPROVER_assume(!s.valid || (NV_ISFIN(s.m_fx) && s.xfin));
@@ -82,7 +87,7 @@ static _Bool nv_state_uib(struct nv_state* s, const struct nv_vec* x, const stru
   nv_state_update_calls(s);
   if (NV_ISFIN(fx) && fx < s->m_fx)
   {
-    s->ver = x->id; s->m_fx = fx; s->xfin = x->fin;
+    s->ver = x->id; s->m_fx = fx; s->xfin = x->fin; s->cons_ver = s->ver;
     s->fx_ver = NV_SAME(fx, x->fval) ? x->id : 0;
     s->eval_ver = (g != 0 && NV_SAME(fx, x->fval) && g->grad_of == x->id) ? x->id : 0;
     s->valid = nv_nondet__Bool(); __CPROVER_assume(!s->valid || (NV_ISFIN(s->m_fx) && s->xfin));
@@ -97,7 +102,7 @@ static _Bool nv_state_uib2(struct nv_state* s, const struct nv_vec* x, double fx
 /* solver_state_t::update(x, gx, fx) (src/solver/state.cpp): the triple is stored as given, counters refreshed, returns valid() */
 static _Bool nv_state_update3(struct nv_state* s, const struct nv_vec* x, const struct nv_vec* g, double fx)
 {
-  s->ver = x->id; s->m_fx = fx; s->xfin = x->fin;
+  s->ver = x->id; s->m_fx = fx; s->xfin = x->fin; s->cons_ver = s->ver;
   s->fx_ver = NV_SAME(fx, x->fval) ? x->id : 0;
   s->eval_ver = (NV_SAME(fx, x->fval) && g->grad_of == x->id) ? x->id : 0;
   s->valid = nv_nondet__Bool(); __CPROVER_assume(!s->valid || (NV_ISFIN(s->m_fx) && s->xfin));
@@ -270,32 +275,13 @@ __CPROVER_assigns(state, x, gx, nv_ver_counter, nv_gcount) \
 __CPROVER_loop_invariant(NV_BEST(state, NV_CONS_FULL) && NV_BUDGET2(1)) \
 NV_DECREASES2
 
-/* ---- solver_penalty_t::minimize(penalty_function, x0, logger) (src/solver/penalty.cpp; both penalty solvers share it):
- * the outer loop minimises the penalty function with an inner solver and moves its own state, built on the OBJECTIVE
- * (penalty_function.function()), to the inner solution with `bstate.update(x)` = one evaluation of the objective there.
- * The prophecy field `fval` of a vector is the objective's value; the inner solver returns a state of ANOTHER function:
- * its value says nothing about the objective (fx_ver = 0). */
-struct nv_function nv_objective;                 /* ghost: the objective, penalty_function.function() */
-static struct nv_function* nv_pf_function(const struct nv_opaque* pf) { return &nv_objective; }
-/* rsolver_t::minimize(penalty_function, x0, logger): the inner solve.  Clears the statistics of the PENALTY function only; every
- * evaluation of it evaluates the objective (and its gradient) once (src/function/penalty.cpp) */
-static struct nv_state nv_inner_minimize(const struct nv_vec* x0)
-{
-  struct nv_state s = nv_state_default();
-  uint64_t k = nv_nondet_uint64_t(); __CPROVER_assume(1 <= k && k <= 3000000000u);
-  nv_ver_counter = nv_ver_counter + k; nv_gcount = nv_gcount + k;
-  s.ver = nv_nondet_uint64_t(); __CPROVER_assume(s.ver != 0);
-  s.eval_ver = 0; s.fx_ver = 0; s.m_function = (const void*)0; s.xfin = nv_nondet__Bool(); s.m_fx = nv_nondet_double();
-  s.valid = nv_nondet__Bool(); __CPROVER_assume(!s.valid || (NV_ISFIN(s.m_fx) && s.xfin));
-  s.m_status = nv_nondet_int32_t(); s.gtest = nv_nondet_double();
-  return s;
-}
+/* ---- solver_penalty_t::minimize, the two penalty do_minimize bodies and solver_augmented_lagrangian_t::do_minimize: specs/C02/penalty.h */
 /* solver_state_t::update(x) (include/nano/solver/state.h): m_x = x; m_fx = m_function->vgrad(m_x, m_gx): one evaluation of the
- * state's own function at x; returns valid() */
+ * state's own function at x (value and gradient), then update(m_x, m_gx, m_fx, ..) = update_calls(), update_constraints(); returns valid() */
 static _Bool nv_state_update_x(struct nv_state* s, const struct nv_vec* x)
 {
-  nv_ver_counter = nv_ver_counter + 1; nv_gcount = nv_gcount + 1;
-  s->ver = x->id; s->xfin = x->fin; s->eval_ver = s->ver;
+  nv_ver_counter = nv_ver_counter + 1; nv_gcount = nv_gcount + 1; NV_FG_BUMP(2);
+  s->ver = x->id; s->xfin = x->fin; s->eval_ver = s->ver; s->cons_ver = s->ver;
   if (s->m_function == nv_obj) { s->m_fx = x->fval; s->fx_ver = s->ver; }
   else { s->m_fx = nv_nondet_double(); s->fx_ver = 0; }
   s->valid = nv_nondet__Bool(); __CPROVER_assume(!s->valid || (NV_ISFIN(s->m_fx) && s->xfin));
@@ -303,25 +289,7 @@ static _Bool nv_state_update_x(struct nv_state* s, const struct nv_vec* x)
   nv_state_update_calls(s);
   return s->valid;
 }
-static double nv_param_eta(void) { return nv_nondet_double(); }
 static double nv_param_epsilon0(void) { return nv_nondet_double(); }
-static double nv_param_epsilonK(void) { return nv_nondet_double(); }
-static double nv_param_penalty0(void) { return nv_nondet_double(); }
-static int64_t nv_param_max_outer_iters(void) { int64_t p = nv_nondet_int64_t(); __CPROVER_assume(10 <= p && p <= 100); return p; }
-#define NV_PEN_STATE(s) ((s).ver != 0 && (s).m_function == (const void*)&nv_objective && NV_CONS_FULL(s) && NV_COUNTS2_OK(s))
-#define NV_CONTRACT_penalty_minimize \
-__CPROVER_requires(NV_SOLVER_PARAMS_OK && nv_ver_counter == 0 && nv_gcount == 0 && __CPROVER_is_fresh(self, sizeof(*self)) && __CPROVER_is_fresh(penalty_function, sizeof(*penalty_function)) && nv_obj == (const void*)&nv_objective) \
-__CPROVER_requires(__CPROVER_is_fresh(x0, sizeof(*x0)) && x0->id != 0 && x0->fin && NV_ISFIN(x0->fval)) \
-__CPROVER_assigns(nv_ver_counter, nv_gcount) \
-__CPROVER_ensures(NV_STATUS_OK(NV_RET.m_status)) \
-/* the reported value and gradient are the OBJECTIVE's at the reported point */ \
-__CPROVER_ensures(NV_PEN_STATE(NV_RET)) \
-__CPROVER_ensures(NV_RET.m_status != NVE_solver_status_failed ==> (NV_ISFIN(NV_RET.m_fx) && NV_RET.xfin))
-#define NV_LOOP_penalty_minimize_1 \
-__CPROVER_assigns(outer, penalty, solver, bstate, nv_ver_counter, nv_gcount) \
-__CPROVER_loop_invariant(0 <= outer && outer <= max_outers && NV_PEN_STATE(bstate) && bstate.m_status == NVE_solver_status_max_iters && NV_ISFIN(bstate.m_fx) && bstate.xfin) \
-__CPROVER_loop_invariant(0 <= outer && 1 <= nv_ver_counter && nv_gcount <= nv_ver_counter && nv_ver_counter <= 1 + (uint64_t)outer * 3000000001u) \
-__CPROVER_decreases(max_outers - outer)
 
 /* ---- gradient sampling solvers gs / ags / gs-lbfgs / ags-lbfgs: base_solver_gs_t<sampler, preconditioner>::do_minimize and the
  * perturbed line search gsample::lsearch_t::step (src/solver/gsample/lsearch.h).  The state moves only by state.update(x). */
@@ -331,7 +299,7 @@ static struct nv_gs_lsearch nv_gs_lsearch_make(void)
 { struct nv_gs_lsearch l; l.m_beta = nv_nondet_double(); l.m_gamma = nv_nondet_double(); l.m_max_iters = nv_nondet_int64_t(); __CPROVER_assume(1 <= l.m_max_iters && l.m_max_iters <= 100); return l; }
 /* sampler.sample(state, epsilon): evaluates the function (value and gradient) at the sampled points: at least one, at most 2n */
 static void nv_gs_sample(void)
-{ uint64_t k = nv_nondet_uint64_t(); __CPROVER_assume(1 <= k && k <= 2000000u); nv_ver_counter = nv_ver_counter + k; nv_gcount = nv_gcount + k; }
+{ uint64_t k = nv_nondet_uint64_t(); __CPROVER_assume(1 <= k && k <= 2000000u); nv_ver_counter = nv_ver_counter + k; nv_gcount = nv_gcount + k; NV_FG_BUMP(2 * k); }
 static struct nv_function* nv_state_function(const struct nv_state* s) { return (struct nv_function*)s->m_function; }
 static double nv_param_miu0(void) { return nv_nondet_double(); }
 static double nv_param_epsilon0(void);
